@@ -46,6 +46,7 @@ func (c *listCtx) verdict(rule, fname, construct string, fn *ssa.Function, it *I
 func newListInterp(w *World) *Interp {
 	it := NewInterp(w)
 	it.Fuel = 30000
+	it.UseInitValues = true
 	it.Premise = it.T.one
 	return it
 }
